@@ -354,6 +354,11 @@ def generate(rng, max_blocks=8, with_children=True, with_regs=True, wide=False, 
     for s in cands[:rng.randint(min(min_regs, len(cands)), min(max_regs, len(cands)))]:
       d.regs.append(s.idx)
       mark_available(d, s)
+    # an in port of a child driven by an update_ff block of its parent (the one legal cross-hierarchy sequential write)
+    for s in d.sigs:
+      if s.kind == 'in' and s.comp != '' and s.name != 'reset' and s.stype is None and rng.random() < 0.2:
+        d.regs.append(s.idx)
+        mark_available(d, s)
   # comb blocks and nets in creation order
   pending_children = list(children)
   nblocks = rng.randint(2, max_blocks)
@@ -370,7 +375,9 @@ def generate(rng, max_blocks=8, with_children=True, with_regs=True, wide=False, 
       make_comb(d, comp)
   # ff blocks (may read anything readable from their host, including signals driven "later")
   by_comp = {}
-  for g in d.regs: by_comp.setdefault(d.sigs[g].comp, []).append(g)
+  for g in d.regs:
+    sg = d.sigs[g]
+    by_comp.setdefault(d.parent_of(sg.comp) if sg.kind == 'in' else sg.comp, []).append(g)
   for comp, regs in by_comp.items():
     rng.shuffle(regs)
     while regs:
@@ -487,7 +494,7 @@ def make_ff(d, comp, regs):
     if k < 0.35:
       e = ('m', ('r', reset.idx, 0, 1), ('c', w, rng.choice([0, 1, (1 << w) - 1])), e); styles[len(asgs)] = 'ifelse'
       asgs.append(((g, 0, w), e))
-    elif k < 0.55:
+    elif k < 0.55 and d.sigs[g].comp == comp:
       e = ('m', d.gen_expr(1, readable, 1), e, self_r); styles[len(asgs)] = 'hold'
       asgs.append(((g, 0, w), e))
     elif k < 0.75:
@@ -848,9 +855,18 @@ def parse_scc(rs, fn):
     blks = list(g['scc_tick_func'].__closure__[0].cell_contents)
   else:
     blks = []
-    for m in re.finditer(r'^\s*(blk\d+)\(\)', src, re.M): blks.append(g[m.group(1)])
+    for m in re.finditer(r'^\s*(\w+)\(\)', src, re.M):
+      if m.group(1) in g and callable(g[m.group(1)]) and m.group(1) != fn.__name__: blks.append(g[m.group(1)])
   ids = []
   for b in blks:
+    if getattr(b, '__name__', '').startswith('meta_block'):
+      # an SCC of >= 10 blocks is cut into several meta blocks (Mamba2020): the inner order is their concatenation
+      sub = []
+      rs.expand(b, sub)
+      for e in sub:
+        if e[0] != 'b': raise leanio.InfraError(f'unexpected entry {e} inside {b.__name__} of {fn.__name__}')
+        ids.append(e[1])
+      continue
     if b not in rs.blk2id: raise leanio.InfraError(f'unknown block {b.__name__} inside {fn.__name__}')
     ids.append(rs.blk2id[b])
   bypath = {s.path: s for s in d.sigs}
